@@ -796,6 +796,19 @@ def _check_report(run, repo, world):
                    for x in _walk_no_nested(n.ast)):
             continue
         bad = W.worlds_with(n, lambda w: ("cond", "timeout", True) in w)
+        if bad and n.kind == "stmt" and isinstance(
+                n.ast, ast.Assign) and isinstance(
+                    n.ast.value, (ast.BoolOp, ast.IfExp)) and any(
+                        isinstance(x, ast.Name) and x.id == "timeout"
+                        for x in ast.walk(n.ast.value)):
+            # `flag = not timeout and <test of frame>`: whether `frame` is
+            # read depends on the short-circuit inside the value, which the
+            # statement-level worlds do not follow
+            raise AnalysisError(
+                "%s computes a flag from `timeout` and `frame` in one "
+                "short-circuit expression (`%s`); the rule reads tests of "
+                "`frame` that are statements' own conditions" % (
+                    Q, unparse(n.ast, 70)))
         run.ob("R-REPORT", Q + "#frame-read-only-with-a-report", not bad,
                "`%s` reads `frame` on a pass that woke up on the timer "
                "(timeout is True): the value is left over from an earlier "
